@@ -26,12 +26,13 @@ def numeric_spellings(tier='quick'):
         sp = [('lit5', '5', []), ('under', '1_0', []), ('const', K, [K]), ('paren', '(5)', []), ('shift_arith', '(1 << 4) - 1', []),
               ('const_shift', '%s << 1' % K, [K]), ('tmax', '%s::MAX' % t, []), ('tmin', '%s::MIN' % t, []),
               ('call', 'five_%s()' % t, ['five_' + t]), ('typed_lit', '5%s' % t, []), ('sum', '5 + 1', []), ('shift', '1 << 3', []),
+              ('userpath_max', 'limits_%s::MAX' % t, ['limits_' + t]), ('userpath_min', 'limits_%s::MIN' % t, ['limits_' + t]),
               ('const_minus', '%s - 1' % K, [K]), ('cast', '(300u16 as %s)' % t if t != 'u8' else '(3u16 as u8)', [])]
         if signed:
             sp += [('neg5', '-5', []), ('negconst', '-%s' % K, [K]), ('negparen', '-(5)', []), ('parenneg', '(-5)', []),
                    ('negcall', '-five_%s()' % t, ['five_' + t]), ('negunder', '-1_0', [])]
         for tag, src, names in sp:
-            for kind in (['greater', 'less_or_equal'] if tier == 'quick' else ['greater', 'greater_or_equal', 'less', 'less_or_equal']):
+            for kind in (['greater', 'less_or_equal'] if (tier == 'quick' and not tag.startswith('userpath')) else ['greater', 'greater_or_equal', 'less', 'less_or_equal']):
                 d = mk('sp_%s_%s_%s' % (t, kind, tag), 'int', t, validators=[Validator(kind, _b(src, t))], aux=names,
                        derives=['Debug', 'TryFrom'], props=['C02'])
                 d.note = 'bound spelling `%s`' % src
@@ -43,9 +44,10 @@ def numeric_spellings(tier='quick'):
               ('tmax', '%s::MAX' % t, []), ('negtmax', '-%s::MAX' % t, []), ('inf', '%s::INFINITY' % t, []), ('neginf', '-%s::INFINITY' % t, []),
               ('neginf2', '%s::NEG_INFINITY' % t, []), ('call', 'five_%s()' % t, ['five_' + t]), ('negcall', '-five_%s()' % t, ['five_' + t]),
               ('typed', '5.5%s' % t, []), ('arith', '2.0 * 3.0', []), ('const_arith', '%s / 4.0' % K, [K]), ('negzero', '-0.0', []),
-              ('minpos', '%s::MIN_POSITIVE' % t, []), ('huge', '1e400', [])]
+              ('minpos', '%s::MIN_POSITIVE' % t, []), ('huge', '1e400', []),
+              ('userpath_max', 'limits_%s::MAX' % t, ['limits_' + t]), ('userpath_min', 'limits_%s::MIN' % t, ['limits_' + t])]
         for tag, src, names in sp:
-            for kind in (['greater_or_equal', 'less'] if tier == 'quick' else ['greater', 'greater_or_equal', 'less', 'less_or_equal']):
+            for kind in (['greater_or_equal', 'less'] if (tier == 'quick' and not tag.startswith('userpath')) else ['greater', 'greater_or_equal', 'less', 'less_or_equal']):
                 d = mk('sp_%s_%s_%s' % (t, kind, tag), 'float', t, validators=[Validator(kind, _b(src, t))], aux=names,
                        derives=['Debug', 'TryFrom'], props=['C02'])
                 d.note = 'bound spelling `%s`' % src
